@@ -176,22 +176,28 @@ where
     fn etag(&self) -> Option<HeaderValue> {
         // This etag format is similar to Apache's. The etag should change if the file is modified
         // or replaced. The length is probably redundant but doesn't harm anything.
-        let dur = self
-            .inner
-            .mtime
-            .duration_since(time::UNIX_EPOCH)
-            .expect("modification time must be after epoch");
-
         static HEX_U64_LEN: usize = 16;
         static HEX_U32_LEN: usize = 8;
-        Some(unsafe_fmt_ascii_val!(
-            HEX_U64_LEN * 3 + HEX_U32_LEN + 5,
-            "\"{:x}:{:x}:{:x}:{:x}\"",
-            self.inner.inode,
-            self.inner.len,
-            dur.as_secs(),
-            dur.subsec_nanos()
-        ))
+        Some(match self.inner.mtime.duration_since(time::UNIX_EPOCH) {
+            Ok(dur) => unsafe_fmt_ascii_val!(
+                HEX_U64_LEN * 3 + HEX_U32_LEN + 5,
+                "\"{:x}:{:x}:{:x}:{:x}\"",
+                self.inner.inode,
+                self.inner.len,
+                dur.as_secs(),
+                dur.subsec_nanos()
+            ),
+            // A modification time before the epoch (e.g. a file dated 1960) is unusual but valid.
+            // Encode the (positive) distance to the epoch behind a `-` rather than panicking.
+            Err(e) => unsafe_fmt_ascii_val!(
+                HEX_U64_LEN * 3 + HEX_U32_LEN + 6,
+                "\"{:x}:{:x}:-{:x}:{:x}\"",
+                self.inner.inode,
+                self.inner.len,
+                e.duration().as_secs(),
+                e.duration().subsec_nanos()
+            ),
+        })
     }
 
     fn last_modified(&self) -> Option<SystemTime> {
